@@ -151,7 +151,11 @@ Probes(v, q) == IF q.v.t \in {"err", "unspec", "nilptr"} THEN {}
                 ELSE {[g |-> v, path |-> q.p, probe |-> "truth", expect |-> [kind |-> "out", out |-> IF TruthD(q.v) THEN "T" ELSE "F"], tags |-> <<Family, v.g, "truth">>]}
                      \cup (IF q.v.t = "arr" THEN {[g |-> v, path |-> q.p, probe |-> "len", expect |-> [kind |-> "out", out |-> ToString(Len(q.v.es))], tags |-> <<Family, v.g, "len">>]}
                            ELSE {})
-Cases == UNION {LET c == Top(v) IN
+\* a map's keys are reachable by name - the empty name too (index syntax; dot syntax cannot spell it)
+EmptyKey == {[g |-> GMap(<<KV("", GStr("empty")), KV("k", GInt("int", "five"))>>), path |-> pth, probe |-> "", expect |-> [kind |-> "out", out |-> o], tags |-> <<Family, "map", "empty-key">>] :
+               <<pth, o>> \in {<<"[\"\"]", "empty">>, <<"[\"k\"]", "5">>, <<".k", "5">>}}
+            \cup {[g |-> GStruct(<<Fld("Inner", TRUE, GMap(<<KV("", GInt("int", "five"))>>))>>), path |-> ".inner[\"\"]", probe |-> "", expect |-> [kind |-> "out", out |-> "5"], tags |-> <<Family, "struct", "empty-key">>]}
+Cases == (IF Family = "g1" THEN EmptyKey ELSE {}) \cup UNION {LET c == Top(v) IN
                 IF IsErr(c) THEN {[g |-> v, path |-> "", probe |-> "", expect |-> [kind |-> "err", why |-> "unsupported value in the data"], tags |-> <<Family, "unsupported">>]}
                 ELSE IF IsUnspec(c) THEN {[g |-> v, path |-> "", probe |-> "", expect |-> [kind |-> "any"], tags |-> <<Family, "nil-pointer">>]}
                 ELSE {[g |-> v, path |-> q.p, probe |-> "", expect |-> ExpectAt(q), tags |-> <<Family, v.g>>] : q \in Paths(c, 3) \cup Misses(v)}
